@@ -39,6 +39,8 @@ func checkC10(c *Ctx) {
 	if un := c.unsubscribeHandler(); un != nil {
 		c.unsubscribeLoop(un)
 	}
+	// session state lives in the store the broker was configured with
+	c.providerWiring(true, false)
 }
 
 // sessionLookupFn: the Server method that looks a session up and creates one.
@@ -69,6 +71,22 @@ func (c *Ctx) getSessionContract() {
 	mGet := nodeM(mMethod(pkgSessions, "Manager", "Get"))
 	mInit := nodeM(mMethod(pkgSessions, "Session", "Init"))
 	mUpd := nodeM(mMethod(pkgSessions, "Session", "Update"))
+	// the session of the connection is assigned what the store's Get returned
+	keepsStored := func(n paths.Node) bool {
+		st, ok := n.Instr.(*ssa.Store)
+		if !ok {
+			return false
+		}
+		if p := ir.PathOf(st.Addr); len(p.Fields) == 0 || p.Fields[len(p.Fields)-1] != "sess" {
+			return false
+		}
+		v := ir.SeeThrough(st.Val)
+		if ex, ok := v.(*ssa.Extract); ok {
+			v = ex.Tuple
+		}
+		call, ok := v.(*ssa.Call)
+		return ok && ir.IsMethod(call.Common(), pkgSessions, "Manager", "Get")
+	}
 	const aClean = "call:ConnectMessage.CleanSession"
 	const aSess = "nonnil:service.service.sess"
 	const aGet = "err:Manager.Get"
@@ -86,7 +104,7 @@ func (c *Ctx) getSessionContract() {
 			map[string]func(paths.Node) bool{"SetSessionPresent(true)": present(true), "Session.Update": mUpd}},
 		{"clean(CleanSession=1)", Assume{aClean: true, aSess: false, "err:*": false},
 			map[string]func(paths.Node) bool{"SetSessionPresent(false)": present(false), "Manager.New": mNew, "Session.Init": mInit},
-			map[string]func(paths.Node) bool{"SetSessionPresent(true)": present(true), "Session.Update": mUpd}},
+			map[string]func(paths.Node) bool{"SetSessionPresent(true)": present(true), "Session.Update": mUpd, "service.sess = Manager.Get(..)": keepsStored}},
 	}
 	for _, s := range scen {
 		for name, m := range s.must {
